@@ -65,7 +65,9 @@ def init (cfg : Cfg) : State := { cfg := cfg, avail := cfg.max, conns := [], log
 inductive CloseHow where
   | peerClose     -- close frame / clean EOF           (`Receive::ConnectionClosed`)
   | peerReset     -- transport error, also mid-call    (`SokettoError::Closed` / io error)
-  | serverClose   -- server side: protocol error, ping inactivity (`break Err(err)` / 316-322)
+  | serverClose   -- server side: protocol error (`break Err(err)`), ping inactivity (ws.rs:311-323,
+                  -- `Receive::ConnectionClosed`); like every non-`Stopped` end it does NOT wait for
+                  -- calls still executing on the session (`graceful_shutdown` only waits after stop)
   | stopped       -- server stop: `Shutdown::Stopped`, pending calls awaited first
   deriving DecidableEq, Repr
 
